@@ -6,6 +6,7 @@ import petl as etl
 from hypothesis import strategies as st
 
 from pv import gen, codec
+from pv import scale
 from pv import catgen
 from pv.core import Sub, Fail, exc_fail, two_iterators
 from pv.ref import base as R, setops as RS
@@ -88,6 +89,17 @@ def _run(f, *args, **kw):
 
 
 def check(case, ctx):
+    if "blowup" not in case:
+        case = dict(case, blowup=scale.derive(case, odds=25, sizes=[130, 300, 600, 1030], wide=False))
+    if case.get("blowup"):
+        # at scale: both tables blown up the same way (whole rows keep repeating across the two), chunk sizes that give a
+        # few hundred chunk files
+        bl = case["blowup"]
+        nb = bl["rows"]
+        bs = (None, 1000, 7, max(1, nb // 300), max(1, nb // 130), max(1, nb // 2))[(nb + len(case["a"]) + len(case["b"])) % 6]
+        case = dict(case, a=scale.apply(case["a"], bl), b=scale.apply(case["b"], dict(bl, rows=max(1, bl["rows"] - 7))),
+                    buffersize=bs, upstream=["none", "none"], presorted=False, lag=None, forms=["lists", "lists"])
+        scale.label(ctx, bl)
     op, a, b, strict = case["op"], case["a"], case["b"], case["strict"]
     forms = case.get("forms") or ["lists", "lists"]
     pre = bool(case.get("presorted")) and (case.get("upstream") or ["none", "none"]) == ["none", "none"]
